@@ -125,6 +125,7 @@ def main(argv=None):
                 ob = Obligation(d['name'], list(d['pc']), d['goal'], d.get('func', ''), 0, 'canary' if d.get('expect_fail') else 'lemma', d.get('note', ''))
                 ob.expect_fail = bool(d.get('expect_fail'))
                 ob.contract = Lemma(d.get('func', d['name']), {})
+                ob.replay_code = d.get('replay_code')      # optional: program run on the real code with the solver's model as MODEL
                 eng.obligations.append(ob)
                 eng.functions_seen.add(d.get('func', ''))
         except (Unsupported, ContractError) as e:
